@@ -67,7 +67,7 @@ def run(ctx):
     ctx.proof("C29exec")
 
     # ---------------- generate the template groups of this run
-    n_groups = ctx.size(110, 700)
+    n_groups = ctx.size(55, 500)
     groups = []
     for gi in range(n_groups):
         templates = dict(FC.AUX)
@@ -154,7 +154,7 @@ def fresh_process_refs(ctx, groups, refs):
     jobs = []
     for gi, (templates, names, tg_data) in enumerate(groups):
         for n in names:
-            if "import" in templates[n] or "include" in templates[n] or n.startswith("g_"):
+            if "import" in templates[n] or "include" in templates[n] or "tojson" in templates[n] or n.startswith("g_"):
                 jobs.append((gi, MODES[(gi + len(jobs)) % 3], n))
     ctx.rng.shuffle(jobs)
     for gi, mode, n in jobs[: ctx.size(14, 80)]:
